@@ -514,10 +514,10 @@ def build(case):
             e = t if e is None else e + t
         return e if e is not None else 0.0
     y = ydot if ny else None
-    def declare_amb(fs, amb):
+    def declare_amb(fs, amb, parts=('supp', 'exp', 'prob'), exps=None):
         # supports
         done = set()
-        for s in range(S):
+        for s in (range(S) if 'supp' in parts else []):
             if s in done:
                 continue
             same = [s]
@@ -530,7 +530,7 @@ def build(case):
                 fs[[lab[t] for t in same]].suppset(cons)
             done.update(same)
         # expectation sets
-        for e in amb['exps']:
+        for e in ((amb['exps'] if exps is None else exps) if 'exp' in parts else []):
             Ez, Eu = E(z), (E(u) if nu else None)
 
             def comp(j):
@@ -554,6 +554,8 @@ def build(case):
                 fs.exptset(*cs)
             else:
                 fs[[lab[s] for s in ev]].exptset(*cs)
+        if 'prob' not in parts:
+            return
         p = m.p
         pr = amb['prob']
         if pr['t'] == 'fixed':
@@ -644,7 +646,7 @@ def build(case):
             con = con.forall(fset)
         m.st(con)
     return m, {'x': x, 'y': y, 'ya': ya if ny else None, 'yb': yb if ny else None, 'z': z, 'u': u, 'fset': fset, 'fset2': fset2,
-               'labels': lab}
+               'labels': lab, 'declare_amb': declare_amb}
 
 
 def pick_solver(case):
